@@ -38,13 +38,22 @@ pub struct Monitor {
 }
 
 pub fn all() -> Vec<Monitor> {
-    vec![tcp_pair::monitor_c01(), tcp_pair::monitor_c02(), tcp_peer::monitor_c04(), c05(), tcp_peer::monitor_c17(), c06::monitor(), c07::monitor(), c08(), c11::monitor(), tcp_pair::monitor_c13(), c14::monitor(), c15::monitor(), c16::monitor(), c20::monitor(), c03::monitor(), c09::monitor(), c10::monitor(), c12::monitor(), c18::monitor(), c19::monitor(), c08bc::monitor()]
+    vec![tcp_pair::monitor_c01(), tcp_pair::monitor_c02(), tcp_peer::monitor_c04(), c05(), tcp_peer::monitor_c17(), c06::monitor(), c07::monitor(), c08(), c11::monitor(), tcp_pair::monitor_c13(), c14::monitor(), c15::monitor(), c16::monitor(), c20::monitor(), c03::monitor(), c09::monitor(), c10::monitor(), c12::monitor(), c18::monitor(), c19::monitor()]
 }
 
-/// C08: checksum routine vs. reference (c08a) [+ emitted-valid and enforced parts when built]
+/// C08 = (a) checksum routine vs. reference [c08a] + (b) emitted valid and (c) enforced [c08bc]
 fn c08() -> Monitor {
     let mut m = c08a::monitor();
     m.id = "C08";
+    let bc = c08bc::monitor();
+    m.parts.extend(bc.parts);
+    let mut floors: Vec<(&'static str, u64)> = m.floors.to_vec();
+    floors.extend(bc.floors.iter().filter(|f| f.0 != "distinct" && f.0 != "evaluations").cloned());
+    m.floors = Box::leak(floors.into_boxed_slice());
+    let mut asm: Vec<&'static str> = m.assumptions.to_vec();
+    asm.extend(bc.assumptions.iter().cloned());
+    m.assumptions = Box::leak(asm.into_boxed_slice());
+    m.rule = Box::leak(format!("(a) {} (b,c) {}", m.rule, bc.rule).into_boxed_str());
     m
 }
 
